@@ -74,7 +74,63 @@ def checkBlocks (codec : String) (sync : Bytes) : List (List Bytes) → List Byt
     else checkBlocks codec sync blks ws is
   | _ :: _, _, _ => some "fewer writes than the reference partition requires"
 
+def parseFwOps : List Sexp → Option (List FwOp)
+  | [] => some []
+  | .list [.atom "h"] :: r => (parseFwOps r).map (FwOp.header :: ·)
+  | .list [.atom "b", n, d] :: r => do
+    let n ← asNat n
+    let d ← asBytes d
+    let rest ← parseFwOps r
+    pure (.block n d :: rest)
+  | _ => none
+
+/-- `(fwd codec k acc (ops…) (res failedCall|none writesAccepted wraps))`: the file writer driven directly. The sync marker
+is random and the compressors are external, so the model is compared on WHICH call fails and how many writes were
+accepted whole before it (both independent of the bytes written). -/
+def fwdVerdict (args : List Sexp) : Verdict :=
+  match args with
+  | [.atom codec, k, acc, .list (.atom "ops" :: ops), impl] =>
+    match asNat k, asNat acc, parseFwOps ops with
+    | some k, some acc, some ops =>
+      let cfg : EncCfg := { blockSize := 0, compress := id, sync := [0], header := [0] }
+      let (w, failed) := fwRunFrom cfg ops 0 { failAt := k, accept := acc }
+      match impl with
+      | .list (.atom "panic" :: why) => .oracle s!"a FileWriter call panicked when write {k} failed: {why}"
+      | .list (.atom "res" :: f :: n :: .atom wraps :: recorded) =>
+        match parseFailed f, asNat n with
+        | some implFailed, some implN =>
+          if failed.isSome && implFailed.isNone then
+            .oracle s!"write {k} failed and every call returned nil (the model reports call {failed.getD 0})"
+          else if implFailed.isSome && wraps != "true" then
+            .oracle s!"write {k} failed and call {implFailed.getD 0} returned an error that does not wrap the writer's error"
+          else if implFailed != failed then .diff s!"model: failing call {failed}, implementation {implFailed}"
+          else if implN != w.log.length then .diff s!"model: {w.log.length} writes accepted whole, implementation {implN}"
+          else
+            -- a fault-free run also hands over what the destination recorded: the specification's block reader must read the
+            -- bytes after the header as exactly the blocks written (C02b.direct_container_valid)
+            match recorded with
+            | [.list (.atom "writes" :: ws)] =>
+              match ws.mapM asBytes with
+              | some (hdr :: rest) =>
+                let sync := hdr.drop (hdr.length - 16)
+                let blocks := ops.filterMap fun o => match o with | .block r d => some (r, d) | .header => none
+                match Spec.readBlocks sync (blocks.length + 1) rest.flatten with
+                | none => .oracle s!"the specification's block reader rejects what WriteHeader / WriteBlock {blocks.map (·.1)} wrote"
+                | some bl =>
+                  if bl.map (·.count) != blocks.map (fun b => (b.1 : Int)) then
+                    .oracle s!"declared record counts {bl.map (·.count)} differ from the row counts passed to WriteBlock {blocks.map (·.1)}"
+                  else if codec == "null" && bl.map (·.payload) != blocks.map (·.2) then
+                    .oracle "a block payload differs from the bytes passed to WriteBlock (null codec)"
+                  else .ok s!"fwd/{codec}/fault-free/container-valid"
+              | _ => .bad "fwd writes"
+            | _ => .ok s!"fwd/{codec}/{if failed.isSome then "fails" else "no-fault-reached"}"
+        | _, _ => .bad "fwd outcome"
+      | _ => .bad "fwd outcome"
+    | _, _, _ => .bad "parse"
+  | _ => .bad "parse"
+
 def c09 (op : String) (args : List Sexp) : Verdict :=
+  if op == "fwd" then fwdVerdict args else
   if op == "enc-scenario" then
     (match args with
      | [.atom name, .atom codec, .list [.atom "ok"]] => .ok s!"scenario/{name}/{codec}"
@@ -124,43 +180,6 @@ def scenarioVerdict (args : List Sexp) : Verdict :=
   | [.atom name, .atom codec, .list [.atom "ok"]] => .ok s!"scenario/{name}/{codec}"
   | [.atom name, _, .list (.atom "violated" :: why)] => .oracle s!"{name}: {why}"
   | _ => .oracle s!"scenario outcome {args}"
-
-def parseFwOps : List Sexp → Option (List FwOp)
-  | [] => some []
-  | .list [.atom "h"] :: r => (parseFwOps r).map (FwOp.header :: ·)
-  | .list [.atom "b", n, d] :: r => do
-    let n ← asNat n
-    let d ← asBytes d
-    let rest ← parseFwOps r
-    pure (.block n d :: rest)
-  | _ => none
-
-/-- `(fwd codec k acc (ops…) (res failedCall|none writesAccepted wraps))`: the file writer driven directly. The sync marker
-is random and the compressors are external, so the model is compared on WHICH call fails and how many writes were
-accepted whole before it (both independent of the bytes written). -/
-def fwdVerdict (args : List Sexp) : Verdict :=
-  match args with
-  | [.atom codec, k, acc, .list (.atom "ops" :: ops), impl] =>
-    match asNat k, asNat acc, parseFwOps ops with
-    | some k, some acc, some ops =>
-      let cfg : EncCfg := { blockSize := 0, compress := id, sync := [0], header := [0] }
-      let (w, failed) := fwRunFrom cfg ops 0 { failAt := k, accept := acc }
-      match impl with
-      | .list (.atom "panic" :: why) => .oracle s!"a FileWriter call panicked when write {k} failed: {why}"
-      | .list [.atom "res", f, n, .atom wraps] =>
-        match parseFailed f, asNat n with
-        | some implFailed, some implN =>
-          if failed.isSome && implFailed.isNone then
-            .oracle s!"write {k} failed and every call returned nil (the model reports call {failed.getD 0})"
-          else if implFailed.isSome && wraps != "true" then
-            .oracle s!"write {k} failed and call {implFailed.getD 0} returned an error that does not wrap the writer's error"
-          else if implFailed != failed then .diff s!"model: failing call {failed}, implementation {implFailed}"
-          else if implN != w.log.length then .diff s!"model: {w.log.length} writes accepted whole, implementation {implN}"
-          else .ok s!"fwd/{codec}/{if failed.isSome then "fails" else "no-fault-reached"}"
-        | _, _ => .bad "fwd outcome"
-      | _ => .bad "fwd outcome"
-    | _, _, _ => .bad "parse"
-  | _ => .bad "parse"
 
 def c16 (op : String) (args : List Sexp) : Verdict :=
   if op == "enc-scenario" then scenarioVerdict args else
